@@ -2,6 +2,7 @@ use crate::engine::Ctx;
 
 pub mod c01;
 pub mod c03;
+pub mod c04;
 pub mod c05;
 pub mod c06;
 pub mod c07;
@@ -15,6 +16,7 @@ pub type RunFn = fn(&Ctx);
 pub const ALL: &[(&str, RunFn)] = &[
     ("C01", c01::run),
     ("C03", c03::run),
+    ("C04", c04::run),
     ("C05", c05::run),
     ("C06", c06::run),
     ("C07", c07::run),
